@@ -1364,16 +1364,40 @@ def _selftest_bip341(report):
     return agree, total
 
 
+def _selftest_bip342_budget(report):
+    """Cases taken from the BIP342 text (not in the repository's vectors): a signature opcode with a non-empty signature counts
+    towards the validation weight budget BEFORE the public key type is looked at -- also for unknown key types."""
+    G = secp256k1.G
+    p = G.to_bytes_xonly()
+    agree = total = 0
+    for nsig, flags, want in ((1, ["P2SH", "WITNESS", "TAPROOT"], True), (2, ["P2SH", "WITNESS", "TAPROOT"], False), (3, ["P2SH", "WITNESS", "TAPROOT"], False),
+                              (1, ["P2SH", "WITNESS", "TAPROOT", "DISCOURAGE_UPGRADABLE_PUBKEYTYPE"], False)):
+        leaf = bytes([OP_DUP, 1, 0xaa, OP_CHECKSIGVERIFY]) * nsig + bytes([OP_DROP, OP_1])
+        lh = tagged_hash("TapLeaf", b"\xc0" + compact_size(len(leaf)) + leaf)
+        tw = int.from_bytes(tagged_hash("TapTweak", p + lh), "big")
+        Q = G + tw * G
+        wit = [b"\x01", leaf, bytes([0xc0 | (int(Q.y) & 1)]) + p]
+        # budget = 50 + witness size (1 + 2 + (1 + 4 * nsig + 2) + 34 = 40 + 4 * nsig): 94/98/102 for 1/2/3 opcodes costing 50 each: only one fits
+        ok, code = verify(b"", b"\x51\x20" + Q.to_bytes_xonly(), wit, flags, NoTxChecker())
+        total += 1
+        if ok == want:
+            agree += 1
+        else:
+            report.append(f"  DISAGREE bip342 budget case nsig={nsig} flags={flags}: refscript {code}")
+    return agree, total
+
+
 def selftest(verbose=True):
     report = []
     a, t, e, dv = _selftest_script_tests(report)
     txr = _selftest_tx_tests(report)
     ba, bt = _selftest_bip341(report)
-    ok = a == t and dv[0] == dv[1] and all(x == y for x, y in txr.values()) and ba == bt
+    wa, wt = _selftest_bip342_budget(report)
+    ok = a == t and dv[0] == dv[1] and all(x == y for x, y in txr.values()) and ba == bt and wa == wt
     lines = [f"refscript selftest: script_tests.json {a}/{t} verdicts agree ({e}/{t} also agree on the error class); "
              f"single-flag variations {dv[0]}/{dv[1]}",
              f"refscript selftest: tx_valid.json {txr['tx_valid'][0]}/{txr['tx_valid'][1]}, tx_invalid.json {txr['tx_invalid'][0]}/{txr['tx_invalid'][1]}",
-             f"refscript selftest: bip341_wallet_vectors.json {ba}/{bt}",
+             f"refscript selftest: bip341_wallet_vectors.json {ba}/{bt}; BIP342 budget cases with unknown key types (from the BIP text) {wa}/{wt}",
              "refscript selftest: " + ("PASS" if ok else "FAIL")]
     if verbose:
         for r in report:
